@@ -21,11 +21,13 @@ import (
 // zero: an accepted zero duration means "no limit"
 // =============================================================================
 
-func zeroPlans() []spec {
+func zeroPlans(trans []string) []spec {
 	var out []spec
 	for _, p := range hx.AllProtos {
-		out = append(out, spec{Kind: "zero", Proto: p, Opt: mangos.OptionRecvDeadline})
-		out = append(out, spec{Kind: "zero", Proto: p, Opt: mangos.OptionSendDeadline})
+		for _, tr := range trans {
+			out = append(out, spec{Kind: "zero", Proto: p, Opt: mangos.OptionRecvDeadline, Tran: tr})
+			out = append(out, spec{Kind: "zero", Proto: p, Opt: mangos.OptionSendDeadline, Tran: tr})
+		}
 	}
 	out = append(out, spec{Kind: "zero", Proto: "surveyor", Opt: mangos.OptionSurveyTime})
 	out = append(out, spec{Kind: "zero", Proto: "req", Opt: mangos.OptionRetryTime})
@@ -102,7 +104,7 @@ func runZero(c *mon.Case, sp spec) {
 		zeroRetry(c)
 		return
 	case mangos.OptionSendDeadline:
-		zeroSend(c, proto)
+		zeroSend(c, proto, trOr(sp.Tran))
 		return
 	}
 	// RECV-DEADLINE (and SURVEY-TIME on surveyor): Recv stays parked, then completes when satisfied
@@ -115,7 +117,7 @@ func runZero(c *mon.Case, sp spec) {
 		return
 	}
 	pproto := hxPeer(proto)
-	lk := connect(c, proto, pproto, "inproc", false)
+	lk := connect(c, proto, pproto, trOr(sp.Tran), false)
 	if lk == nil {
 		return
 	}
@@ -176,12 +178,12 @@ func runZero(c *mon.Case, sp spec) {
 	}
 	c.Count("zero_deadline_calls_completed", 1)
 	c.Nontrivial()
-	c.Sig("zero|%s|%s|parked-then-completed", proto, opt)
+	c.Sig("zero|%s|%s|%s|parked-then-completed", proto, opt, trOr(sp.Tran))
 }
 
 // zeroSend: SEND-DEADLINE=0 — a Send that cannot proceed (no peer, queue full)
 // stays parked, and completes once a peer attaches.
-func zeroSend(c *mon.Case, proto string) {
+func zeroSend(c *mon.Case, proto, tr string) {
 	opt := mangos.OptionSendDeadline
 	label := proto + "/" + opt
 	if sh := shapeOf(proto); sh == "in" {
@@ -206,7 +208,7 @@ func zeroSend(c *mon.Case, proto string) {
 		return
 	}
 	safeSet(s, mangos.OptionWriteQLen, 2)
-	l, err := s.NewListener(hx.ListenAddr("inproc"), nil)
+	l, err := s.NewListener(hx.ListenAddr(tr), tlsOpts(tr, true))
 	if err == nil {
 		err = l.Listen()
 	}
@@ -261,7 +263,7 @@ func zeroSend(c *mon.Case, proto string) {
 			}
 		}()
 	}
-	if err := p.Dial(l.Address()); err != nil {
+	if err := p.DialOptions(l.Address(), tlsOpts(tr, false)); err != nil {
 		c.Inconclusive("harness: dial: %v", err)
 		return
 	}
@@ -275,7 +277,7 @@ func zeroSend(c *mon.Case, proto string) {
 	_ = sw
 	c.Count("zero_deadline_calls_completed", 1)
 	c.Nontrivial()
-	c.Sig("zero|%s|%s|parked-then-completed|%d", proto, opt, len(bodies))
+	c.Sig("zero|%s|%s|%s|parked-then-completed|%d", proto, opt, tr, len(bodies))
 }
 
 // zeroRetry: REQ RETRY-TIME=0 means no automatic retry: exactly one
@@ -576,11 +578,13 @@ func retainSend(c *mon.Case, sp spec) {
 // qlen0: an accepted queue length of zero leaves the socket responsive and connected
 // =============================================================================
 
-func qlen0Plans() []spec {
+func qlen0Plans(trans []string) []spec {
 	var out []spec
 	for _, p := range hx.AllProtos {
 		for _, o := range []string{mangos.OptionReadQLen, mangos.OptionWriteQLen} {
-			out = append(out, spec{Kind: "qlen0", Proto: p, Opt: o})
+			for _, tr := range trans {
+				out = append(out, spec{Kind: "qlen0", Proto: p, Opt: o, Tran: tr})
+			}
 		}
 	}
 	return out
@@ -589,7 +593,7 @@ func qlen0Plans() []spec {
 func runQLen0(c *mon.Case, sp spec) {
 	proto, opt := sp.Proto, sp.Opt
 	label := proto + "/" + opt + "=0"
-	lk, pproto := linkFor(c, proto, "inproc", false, 1)
+	lk, pproto := linkFor(c, proto, trOr(sp.Tran), false, 1, false)
 	if lk == nil {
 		return
 	}
@@ -641,13 +645,14 @@ func runQLen0(c *mon.Case, sp spec) {
 		return
 	}
 	c.Nontrivial()
-	c.Sig("qlen0|%s|%s", proto, opt)
+	c.Sig("qlen0|%s|%s|%s", proto, opt, trOr(sp.Tran))
 }
 
 // exchangeOrDetached runs exchange(); a failure is reported as a disconnect when
 // the hooks saw one by then (the more specific signature).
 func exchangeOrDetached(c *mon.Case, sigp, label string, lk *link, proto, pproto string) bool {
-	ok := exchange(c, sigp+":"+label, lk, proto, pproto)
+	defer lk.watchDetach()()
+	ok := exchange(c, sigp, label, lk, proto, pproto)
 	if d1, d2 := lk.SW.nDetached(), lk.PW.nDetached(); d1+d2 > 0 {
 		c.Violate("resize-disconnected:"+label, "%s: the pipe event hooks saw %d+%d Detached events although nothing was closed", proto, d1, d2)
 		return false
@@ -846,4 +851,3 @@ func runInherit(c *mon.Case, sp spec) {
 	}
 	c.Sig("inherit|%s|%s|%d", proto, tr, compared)
 }
-
